@@ -145,7 +145,124 @@ fn run(line: &str) -> String {
         }
         return format!("{{\"violated\":{},\"detail\":\"{}\",\"trace\":\"{}\"}}", !problems.is_empty(), problems.join("; ").replace('"', "'"), key_trace.join(" "));
     }
+    if kind == "bevy_history" {
+        return run_history(field(line, "ops"), field(line, "chain"));
+    }
     format!("{{\"error\":\"unknown kind {}\"}}", kind)
+}
+
+fn parse_key(s: &str) -> Key { match s { "Go" => Key::Go, "Back" => Key::Back, "NoTl" => Key::NoTl, _ => Key::Idle } }
+
+/// A key / frame history on a real App, judged against the documented behaviour of selector + chain + animator:
+///   * the component does not change in the frame in which a key change is processed;
+///   * under a key with a timeline (linear, no 0% keyframe, duration D, final value f, blended from the value s held at the
+///     change) the component shows s + (f - s) * clamp(P / D) for a position P between the time elapsed since the change
+///     frame excluding and including that frame's own delta, minus the last delta (values lag one frame); once P >= D the
+///     component rests at f and the animator is Ended at most one frame later;
+///   * under a key without a timeline the component keeps its value and the animator state is None;
+///   * re-assigning the current key never moves timeline_position backwards;
+///   * with a chain entry k -> k', at most 3 frames after k's animation ended the selector key is k'; without an entry it stays.
+fn run_history(ops: &str, chain_spec: &str) -> String {
+    let mut app = App::new();
+    app.add_plugins(AnimationPlugin::<V>::new()).init_resource::<Time>();
+    app.register_animation_key::<V, Key>();
+    let spec = |k: Key| -> Option<(f32, f32)> { match k { Key::Go => Some((1.0, 20.0)), Key::Back => Some((0.5, -5.0)), _ => None } };
+    let go = V::timeline().duration_seconds(1.0).keyframe(V::keyframe(1.0).x(20.0)).build();
+    let back = V::timeline().duration_seconds(0.5).keyframe(V::keyframe(1.0).x(-5.0)).build();
+    let selector = AnimationSelectorBuilder::<Key, V>::new().add(Key::Go, go).add(Key::Back, back).initial_key(Key::Idle).build();
+    let mut cb = AnimationChainBuilder::<Key>::new();
+    let mut cmap: Vec<(Key, Key)> = vec![];
+    for pair in chain_spec.split(';').filter(|x| !x.is_empty()) {
+        let mut it = pair.split('>'); let a = parse_key(it.next().unwrap()); let b = parse_key(it.next().unwrap());
+        cb = cb.add(a, b); cmap.push((a, b));
+    }
+    let e = app.world.spawn((V { x: 3.0 }, Animator::<V>::new(), selector, cb.build())).id();
+    let mut now = Instant::now();
+    app.world.resource_mut::<Time>().update_with_instant(now);
+    let mut problems: Vec<String> = vec![];
+    // reference
+    let mut eff: Key = Key::Idle;            // key whose timeline is (expected to be) loaded
+    let mut start_x = 3.0f32;
+    let mut dts: Vec<f32> = vec![];          // deltas of the frames since (and including) the change frame
+    let mut pending: Option<Key> = None;
+    let mut ended_frames = 0u32; let mut chain_driven = false;
+    let mut trace = vec![];
+    // first frame: the freshly added selector counts as changed (Idle: no timeline)
+    now += Duration::from_secs_f32(0.1); app.world.resource_mut::<Time>().update_with_instant(now); app.update();
+    for (i, op) in ops.split(',').map(|x| x.trim().trim_matches(|c| c == '[' || c == ']' || c == '"' || c == ' ')).filter(|x| !x.is_empty()).enumerate() {
+        if let Some(k) = op.strip_prefix("key:") {
+            let k = parse_key(k);
+            let cur = app.world.get::<AnimationSelector<Key, V>>(e).unwrap().timeline_key;
+            let p0 = app.world.get::<Animator<V>>(e).unwrap().timeline_position;
+            app.world.get_mut::<AnimationSelector<Key, V>>(e).unwrap().timeline_key = k;
+            if k != cur { pending = Some(k); } else if pending.is_none() {
+                // re-assignment of the current key: checked on the next frame through the position
+                let _ = p0;
+            }
+            continue;
+        }
+        let dt: f32 = op.strip_prefix("step:").unwrap_or("0.1").parse().unwrap();
+        let x_before = app.world.get::<V>(e).unwrap().x;
+        let pos_before = app.world.get::<Animator<V>>(e).unwrap().timeline_position;
+        let key_before = app.world.get::<AnimationSelector<Key, V>>(e).unwrap().timeline_key;
+        let st_before = app.world.get::<Animator<V>>(e).unwrap().state();
+        now += Duration::from_secs_f32(dt); app.world.resource_mut::<Time>().update_with_instant(now); app.update();
+        let x = app.world.get::<V>(e).unwrap().x;
+        let a = app.world.get::<Animator<V>>(e).unwrap();
+        let (st, pos) = (a.state(), a.timeline_position);
+        let key_now = app.world.get::<AnimationSelector<Key, V>>(e).unwrap().timeline_key;
+        trace.push(format!("{:?}/{:?}/{}", key_now, st, x));
+        let tag = format!("operation {} ({})", i + 1, op);
+        if let Some(k) = pending.take() {
+            // the frame that processes a user key change
+            if x != x_before { problems.push(format!("{}: component jumped from {} to {} in the frame in which the key changed to {:?}", tag, x_before, x, k)); }
+            eff = k; start_x = x_before; dts = vec![dt]; ended_frames = 0; chain_driven = false;
+            continue;
+        }
+        if key_now != key_before {
+            // the chain moved the key in this frame
+            let allowed = cmap.iter().any(|(a, b)| *a == key_before && *b == key_now) && st_before == AnimationState::Ended;
+            if !allowed { problems.push(format!("{}: selector key moved from {:?} to {:?} without an ended animation mapped by the chain", tag, key_before, key_now)); }
+            // select may process it in this frame or the next one: restart the reference loosely
+            eff = key_now; start_x = x; dts = vec![dt]; ended_frames = 0; chain_driven = true;
+            continue;
+        }
+        dts.push(dt);
+        match spec(eff) {
+            None => {
+                if x != x_before { problems.push(format!("{}: component changed from {} to {} under key {:?}, which has no timeline", tag, x_before, x, eff)); }
+                if st != AnimationState::None { problems.push(format!("{}: animator state {:?} under key {:?}, which has no timeline", tag, st, eff)); }
+            }
+            Some((d, f)) => {
+                // position shown in this frame: elapsed before this frame's delta, with or without the change frame's own delta
+                let n = dts.len();
+                let hi: f32 = dts[..n - 1].iter().sum();
+                // chain-driven changes are processed by select_animation in the same frame or one frame late (the two systems are unordered)
+                let skip = if chain_driven { 2 } else { 1 };
+                let lo: f32 = if n > skip { dts[skip..n - 1].iter().sum() } else { 0.0 };
+                let val = |p: f32| start_x + (f - start_x) * (p / d).clamp(0.0, 1.0);
+                let (a_, b_) = (val(lo), val(hi));
+                let (mn, mx) = (a_.min(b_) - 1e-3, a_.max(b_) + 1e-3);
+                if !(x >= mn && x <= mx) {
+                    problems.push(format!("{}: under key {:?} (blended from {}) the component shows {} but its timeline gives a value in [{}, {}] at the elapsed position [{}, {}]", tag, eff, start_x, x, mn, mx, lo, hi));
+                }
+                if st == AnimationState::Ended && hi + dt < d - 1e-4 { problems.push(format!("{}: the animator of key {:?} is Ended at position <= {} although the timeline lasts {}", tag, eff, hi + dt, d)); }
+                if lo >= d {
+                    ended_frames += 1;
+                    if x != f { problems.push(format!("{}: the animation of key {:?} is over (position >= {}) but the component shows {} instead of its final value {}", tag, eff, lo, x, f)); }
+                    if ended_frames >= 2 && st != AnimationState::Ended { problems.push(format!("{}: the animation of key {:?} is over but the animator state is {:?}", tag, eff, st)); }
+                    if ended_frames >= 4 {
+                        if let Some((_, b)) = cmap.iter().find(|(a, _)| *a == eff) { if key_now != *b { problems.push(format!("{}: {:?} ended {} frames ago and the chain maps it to {:?}, but the selector key is {:?}", tag, eff, ended_frames, b, key_now)); } }
+                    }
+                } else if n >= 3 && dt > 0.0 && hi > 0.0 && lo < d && st == AnimationState::None {
+                    problems.push(format!("{}: key {:?} has a timeline but the animator is not playing it (state None)", tag, eff));
+                }
+            }
+        }
+        if pos < pos_before && key_now == key_before { problems.push(format!("{}: timeline_position moved backwards ({:?} -> {:?}) without a key change", tag, pos_before, pos)); }
+    }
+    problems.dedup();
+    format!("{{\"violated\":{},\"detail\":\"{}\",\"trace\":\"{}\"}}", !problems.is_empty(), problems.iter().take(3).cloned().collect::<Vec<_>>().join("; ").replace('"', "'"), trace.join(" "))
 }
 
 fn main() {
